@@ -23,29 +23,81 @@ def routes : Option (List (String × String × String × List Nat × List Seg)) 
   ("MonitorAllMessagesV2", "MonitorAllMessagesV2", "GET", [97, 112, 105], [.lit [118, 50], .lit [109, 111, 110, 105, 116, 111, 114], .lit [109, 101, 115, 115, 97, 103, 101, 115]]),
   ("MonitorMailboxMessagesV2", "MonitorMailboxMessagesV2", "GET", [97, 112, 105], [.lit [118, 50], .lit [109, 111, 110, 105, 116, 111, 114], .lit [109, 101, 115, 115, 97, 103, 101, 115], .var])]
 
-/-- (handler, MailboxForAddress-then-return-err dominates all Manager calls and feeds them, Manager calls, nilGuard, how ErrNotExist is answered) -/
-def handlers : List (String × Bool × List String × String × String) := [
-  ("MailboxListV1", true, ["GetMetadata"], "none", "none"),
-  ("MailboxShowV1", true, ["GetMessage"], "guarded", "passNil"),
-  ("MailboxMarkSeenV1", true, ["MarkSeen"], "none", "eq404"),
-  ("MailboxPurgeV1", true, ["PurgeMessages"], "none", "none"),
-  ("MailboxSourceV1", true, ["SourceReader"], "guarded", "passNil"),
-  ("MailboxDeleteV1", true, ["RemoveMessage"], "none", "eq404"),
-  ("MailboxMessage", true, ["GetMessage"], "guarded", "passNil"),
-  ("MailboxHTML", true, ["GetMessage"], "unguarded", "eq404"),
-  ("MailboxSource", true, ["SourceReader"], "unguarded", "eq404"),
-  ("MailboxViewAttach", true, ["GetMessage"], "unguarded", "eq404")]
+/-- per handler the behaviour table: (answers of the message.Manager calls / body flag chosen on the path, Manager calls made with the role of each argument, outcomes: notFound | error | panic | done), sorted by the first two columns -/
+def handlers : List (String × List (List String × List String × List String)) := [
+  ("MailboxListV1", [
+    (["canon=err"], ["MailboxForAddress(var:name)"], ["error"]),
+    (["canon=ok", "GetMetadata:ioErr"], ["MailboxForAddress(var:name)", "GetMetadata(canon)"], ["error"]),
+    (["canon=ok", "GetMetadata:notExist"], ["MailboxForAddress(var:name)", "GetMetadata(canon)"], ["error"]),
+    (["canon=ok", "GetMetadata:ok"], ["MailboxForAddress(var:name)", "GetMetadata(canon)"], ["done"])]),
+  ("MailboxShowV1", [
+    (["canon=err"], ["MailboxForAddress(var:name)"], ["error"]),
+    (["canon=ok", "GetMessage:found"], ["MailboxForAddress(var:name)", "GetMessage(canon,var:id)"], ["done"]),
+    (["canon=ok", "GetMessage:ioErr"], ["MailboxForAddress(var:name)", "GetMessage(canon,var:id)"], ["error"]),
+    (["canon=ok", "GetMessage:nilnil"], ["MailboxForAddress(var:name)", "GetMessage(canon,var:id)"], ["notFound"]),
+    (["canon=ok", "GetMessage:notExist"], ["MailboxForAddress(var:name)", "GetMessage(canon,var:id)"], ["notFound"])]),
+  ("MailboxMarkSeenV1", [
+    (["canon=err"], ["MailboxForAddress(var:name)"], ["error"]),
+    (["canon=ok", "seen=false"], ["MailboxForAddress(var:name)"], ["done"]),
+    (["canon=ok", "seen=true", "MarkSeen:ioErr"], ["MailboxForAddress(var:name)", "MarkSeen(canon,var:id)"], ["error"]),
+    (["canon=ok", "seen=true", "MarkSeen:notExist"], ["MailboxForAddress(var:name)", "MarkSeen(canon,var:id)"], ["notFound"]),
+    (["canon=ok", "seen=true", "MarkSeen:ok"], ["MailboxForAddress(var:name)", "MarkSeen(canon,var:id)"], ["done"]),
+    (["canon=ok"], ["MailboxForAddress(var:name)"], ["error"])]),
+  ("MailboxPurgeV1", [
+    (["canon=err"], ["MailboxForAddress(var:name)"], ["error"]),
+    (["canon=ok", "PurgeMessages:ioErr"], ["MailboxForAddress(var:name)", "PurgeMessages(canon)"], ["error"]),
+    (["canon=ok", "PurgeMessages:notExist"], ["MailboxForAddress(var:name)", "PurgeMessages(canon)"], ["error"]),
+    (["canon=ok", "PurgeMessages:ok"], ["MailboxForAddress(var:name)", "PurgeMessages(canon)"], ["done"])]),
+  ("MailboxSourceV1", [
+    (["canon=err"], ["MailboxForAddress(var:name)"], ["error"]),
+    (["canon=ok", "SourceReader:found"], ["MailboxForAddress(var:name)", "SourceReader(canon,var:id)"], ["done"]),
+    (["canon=ok", "SourceReader:ioErr"], ["MailboxForAddress(var:name)", "SourceReader(canon,var:id)"], ["error"]),
+    (["canon=ok", "SourceReader:nilnil"], ["MailboxForAddress(var:name)", "SourceReader(canon,var:id)"], ["notFound"]),
+    (["canon=ok", "SourceReader:notExist"], ["MailboxForAddress(var:name)", "SourceReader(canon,var:id)"], ["notFound"])]),
+  ("MailboxDeleteV1", [
+    (["canon=err"], ["MailboxForAddress(var:name)"], ["error"]),
+    (["canon=ok", "RemoveMessage:ioErr"], ["MailboxForAddress(var:name)", "RemoveMessage(canon,var:id)"], ["error"]),
+    (["canon=ok", "RemoveMessage:notExist"], ["MailboxForAddress(var:name)", "RemoveMessage(canon,var:id)"], ["notFound"]),
+    (["canon=ok", "RemoveMessage:ok"], ["MailboxForAddress(var:name)", "RemoveMessage(canon,var:id)"], ["done"])]),
+  ("MailboxMessage", [
+    (["canon=err"], ["MailboxForAddress(var:name)"], ["error"]),
+    (["canon=ok", "GetMessage:found"], ["MailboxForAddress(var:name)", "GetMessage(canon,var:id)"], ["done"]),
+    (["canon=ok", "GetMessage:ioErr"], ["MailboxForAddress(var:name)", "GetMessage(canon,var:id)"], ["error"]),
+    (["canon=ok", "GetMessage:nilnil"], ["MailboxForAddress(var:name)", "GetMessage(canon,var:id)"], ["notFound"]),
+    (["canon=ok", "GetMessage:notExist"], ["MailboxForAddress(var:name)", "GetMessage(canon,var:id)"], ["notFound"])]),
+  ("MailboxHTML", [
+    (["canon=err"], ["MailboxForAddress(var:name)"], ["error"]),
+    (["canon=ok", "GetMessage:found"], ["MailboxForAddress(var:name)", "GetMessage(canon,var:id)"], ["done"]),
+    (["canon=ok", "GetMessage:ioErr"], ["MailboxForAddress(var:name)", "GetMessage(canon,var:id)"], ["error"]),
+    (["canon=ok", "GetMessage:nilnil"], ["MailboxForAddress(var:name)", "GetMessage(canon,var:id)"], ["panic"]),
+    (["canon=ok", "GetMessage:notExist"], ["MailboxForAddress(var:name)", "GetMessage(canon,var:id)"], ["notFound"])]),
+  ("MailboxSource", [
+    (["canon=err"], ["MailboxForAddress(var:name)"], ["error"]),
+    (["canon=ok", "SourceReader:found"], ["MailboxForAddress(var:name)", "SourceReader(canon,var:id)"], ["done"]),
+    (["canon=ok", "SourceReader:ioErr"], ["MailboxForAddress(var:name)", "SourceReader(canon,var:id)"], ["error"]),
+    (["canon=ok", "SourceReader:nilnil"], ["MailboxForAddress(var:name)", "SourceReader(canon,var:id)"], ["panic"]),
+    (["canon=ok", "SourceReader:notExist"], ["MailboxForAddress(var:name)", "SourceReader(canon,var:id)"], ["notFound"])]),
+  ("MailboxViewAttach", [
+    (["canon=err"], ["MailboxForAddress(var:name)"], ["error"]),
+    (["canon=ok", "GetMessage:found"], ["MailboxForAddress(var:name)", "GetMessage(canon,var:id)"], ["done", "error"]),
+    (["canon=ok", "GetMessage:ioErr"], ["MailboxForAddress(var:name)", "GetMessage(canon,var:id)"], ["error"]),
+    (["canon=ok", "GetMessage:nilnil"], ["MailboxForAddress(var:name)", "GetMessage(canon,var:id)"], ["panic"]),
+    (["canon=ok", "GetMessage:notExist"], ["MailboxForAddress(var:name)", "GetMessage(canon,var:id)"], ["notFound"]),
+    (["canon=ok"], ["MailboxForAddress(var:name)"], ["error"])])]
 
-/-- MailboxMarkSeenV1 calls MarkSeen only under `if dm.Seen` -/
+/-- MailboxMarkSeenV1 calls MarkSeen exactly on the paths where the decoded body's Seen is true -/
 def seenRequiresFlag : Option Bool := some true
 
-/-- the request body pkg/rest/client's MarkSeen sends -/
+/-- the request body pkg/rest/client's MarkSeen hands to http.NewRequest (seenTrue = the JSON object {"seen":true}) -/
 def clientMarkSeenBody : String := "seenTrue"
 
-/-- escaping function and URI shape of List, Get, MarkSeen, Source, Delete, Purge -/
-def clientEscapers : List String := ["QueryEscape:box", "QueryEscape:msg", "QueryEscape:msg", "QueryEscape:source", "QueryEscape:msg", "QueryEscape:box"]
+/-- request bodies of List, Get, MarkSeen, Source, Delete, Purge -/
+def clientBodies : List String := ["none", "none", "seenTrue", "none", "none", "none"]
 
-/-- how restClient.do builds the request URL from the URI -/
+/-- HTTP method and URI of List, Get, MarkSeen, Source, Delete, Purge as they reach http.NewRequest: literal text, {QueryEscape:n} / {PathEscape:n} / {raw:n} = n-th string parameter -/
+def clientEscapers : List String := ["GET /api/v1/mailbox/{QueryEscape:1}", "GET /api/v1/mailbox/{QueryEscape:1}/{raw:2}", "PATCH /api/v1/mailbox/{QueryEscape:1}/{raw:2}", "GET /api/v1/mailbox/{QueryEscape:1}/{raw:2}/source", "DELETE /api/v1/mailbox/{QueryEscape:1}/{raw:2}", "DELETE /api/v1/mailbox/{QueryEscape:1}"]
+
+/-- how the request URL is built from the URI in every operation: JoinPath = <URL>.JoinPath(uri).String() -/
 def clientJoin : String := "JoinPath"
 
 end Ibx.Gen.Rest
